@@ -234,6 +234,15 @@ template <class T> static void randoms (uint64_t seed, int count)
         if (pat == 3) { A4[0][3] = 0; A4[2][3] = 0; }
         if (pat == 4) { A4[1][3] = 0; A4[3][3] = 0; A3[2][2] = (T) -1; }
         if (pat == 5) { for (int i = 0; i < 4; ++i) A4[i][rng_col (it)] = 0; }
+        if (pat == 6)
+        {   // graded matrices: one column, one row, or everything far below the rounding unit of the other entries (a weak
+            // perspective column, a matrix in tiny units): "small" entries are not zero, every product keeps its weight
+            T sc = (T) std::ldexp (1.0, -(20 + ((it / 28) % 4) * 15));
+            int which = (it / 7) % 3, k = rng_col (it / 3);
+            for (int i = 0; i < 4; ++i) for (int j = 0; j < 4; ++j) if (which == 2 || (which == 0 ? j == k : i == k)) A4[i][j] *= sc;
+            for (int i = 0; i < 3; ++i) for (int j = 0; j < 3; ++j) if (which == 2 || (which == 0 ? j == k % 3 : i == k % 3)) A3[i][j] *= sc;
+            for (int i = 0; i < 2; ++i) for (int j = 0; j < 2; ++j) if (which == 2 || (which == 0 ? j == k % 2 : i == k % 2)) A2[i][j] *= sc;
+        }
         matmul<T> (A2, B2, 2); matmul<T> (A3, B3, 3); matmul<T> (A4, B4, 4); matmul44extra<T> (A4, B4);
         vecmat<T> (fillv<T, Vec2<T>> (g, mode), A2, 2); dirmat22<T> (fillv<T, Vec2<T>> (g, mode), A2);
         vecmat<T> (fillv<T, Vec3<T>> (g, mode), A3, 3);
